@@ -241,6 +241,16 @@ class OptimizeUnion:
         }
 
 
+@spec
+def unwrapped(x):
+    return attr_of(x, "_type") if isinstance(x, DOptional) else x
+
+
+@spec
+def landed(y, str_types, types_to_merge, list_types, dict_types, other_types):
+    return y in other_types or y in types_to_merge or y in as_list(str_types) or y in list_types or y in dict_types
+
+
 @loop(MG + "._optimize_union", 1)
 def optimize_union_split(t, str_types, types_to_merge, list_types, dict_types, other_types, _it, _seq):
     return {
@@ -250,6 +260,8 @@ def optimize_union_split(t, str_types, types_to_merge, list_types, dict_types, o
         "others_plain": all_plain(other_types),
         "strings_are_classes": forall(range(seq_len(as_list(str_types))), lambda k: is_class(at(as_list(str_types), k))),
         "mergeables_are_models": forall(range(seq_len(types_to_merge)), lambda k: isinstance(at(types_to_merge, k), dict)),
+        # no member is lost by the categorisation: the member itself, or the type inside an Optional member, is in one of the buckets
+        "every_member_is_in_a_bucket": forall(range(_it), lambda i: landed(unwrapped(_seq[i]), str_types, types_to_merge, list_types, dict_types, other_types)),
     }
 
 
@@ -301,10 +313,14 @@ def buckets_ok(t, other_types):
     return ty_is(other_types, list) and ((Null in other_types) == old(has_null(t))) and all_plain(other_types)
 
 
-@lemma(MG + "._optimize_union", after="if int in other_types and float in other_types:", forget=["other_types"])
+@lemma(MG + "._optimize_union", after="if int in other_types and float in other_types:", forget=["other_types"], only=True)
 def optimize_union_after_int_float(t, other_types, str_types, types_to_merge, list_types, dict_types):
+    """full cut after the categorisation: this is all the rest of the function knows about the buckets"""
     return {"buckets_ok": buckets_ok(t, other_types),
-            "something_left": seq_len(other_types) >= 1 or seq_len(types_to_merge) >= 1 or seq_len(as_list(str_types)) >= 1 or seq_len(list_types) >= 1 or seq_len(dict_types) >= 1}
+            "something_left": seq_len(other_types) >= 1 or seq_len(types_to_merge) >= 1 or seq_len(as_list(str_types)) >= 1 or seq_len(list_types) >= 1 or seq_len(dict_types) >= 1,
+            "lists": ty_is(as_list(str_types), list) and ty_is(types_to_merge, list) and ty_is(list_types, list) and ty_is(dict_types, list),
+            "strings_are_classes": forall(range(seq_len(as_list(str_types))), lambda k: is_class(at(as_list(str_types), k))),
+            "mergeables_are_models": forall(range(seq_len(types_to_merge)), lambda k: isinstance(at(types_to_merge, k), dict))}
 
 
 @lemma(MG + "._optimize_union", after="if types_to_merge:", forget=["other_types"])
